@@ -91,3 +91,9 @@ pub fn c11_lock_ba(a: &Mutex<A>, b: &Mutex<B>) -> u64 {
     let ga = a.lock().unwrap();
     ga.0 + gb.0
 }
+
+// ---- C11-R6: timing-dependent try_lock ------------------------------------------------------------
+pub fn c11_try_lock_skips(m: &Mutex<Option<u64>>) -> Option<u64> {
+    let mut g = m.try_lock().ok()?;
+    g.take()
+}
